@@ -2,7 +2,7 @@
    theorems of props/C11.v mention (idx_load, idx_write, idx_read, idx_getall, idx_canon,
    ii_load, ii_flatten, ...) are evaluated here unchanged. *)
 From Coq Require Import Strings.String.
-From GoCar Require Import Bytes Varint Cid Header Frame V2Header Scan Val RunScan Index.
+From GoCar Require Import Bytes Varint Cid Header Frame V2Header Scan Val RunScan Index IndexGen.
 
 (* ---- decoding the case input ------------------------------------------------------------- *)
 Definition v_recs (v : val) : list irec :=
@@ -164,3 +164,92 @@ Definition prop_idxread (input obs : val) : val :=
          | _ => fail "roundtrip-read-failed"
          end
   else VT "ok".
+
+(* ---- kind idxgen: LoadIndex / GenerateIndex over a source kind ----------------------------------
+   input = (source kind, opts, file, header-oracle table, codec, queries, expect)
+     source kind: 0 bytes.Reader | 1 Read+Seek only | 2 plain io.Reader | 3 os.File
+                  | 4 io.ReaderAt through NewReader(..).DataReader()
+     opts = (zeroLengthAsEOF maxHeader storeIdentity maxIndexCidSize)
+     codec: 0x0400 | 0x0401 | 0x300003 (InsertionIndex handed to LoadIndex)
+     expect (for the property predicate only) = (tvalid hlen blocks payload pad) | (tnone)
+   observation = (terr class) | (tok listing getalls)
+     listing: canonical serialized bytes (on-disk codecs) / ForEachCid order (insertion index)
+     getalls: per query, ascending offsets (insertion index: in GetAll order) *)
+Definition codec_insertion : N := 3145731. (* 0x300003 *)
+
+Definition v_gopts (v : val) : gopts :=
+  mkgopts (vbool (vnth 0 v)) (vN (vnth 1 v)) (vbool (vnth 2 v)) (vN (vnth 3 v)).
+
+Definition src_of_kind (k : N) : srckind := if k =? 2 then SrcPlain else SrcSeek.
+
+Definition run_load (fx : fixes) (input : val) : res (list irec) :=
+  let kind := vN (vnth 0 input) in
+  let o := v_gopts (vnth 1 input) in
+  let file := vB (vnth 2 input) in
+  let hdr := hdr_lookup (vL (vnth 3 input)) in
+  if kind =? 4 then load_index_reader_at_gen hdr fx o file
+  else load_index_gen hdr fx (src_of_kind kind) o file.
+
+Definition v_index_obs (codec : N) (recs : list irec) (qs : list bytes) : val :=
+  if codec =? codec_insertion then
+    let ii := ii_load recs [] in
+    VL [VT "ok";
+        VL (map (fun r => VL [VB (r_cid r); VN (r_off r)]) (ii_flatten_records ii));
+        VL (map (fun q => v_offs (ii_getall (snd (v_key q)) ii)) qs)]
+  else
+    match idx_new codec with
+    | None => VL [VT "err"; VT "other"]
+    | Some i0 =>
+        let i := idx_load recs i0 in
+        VL [VT "ok"; VB (canon_bytes i); v_getalls_sorted i qs]
+    end.
+
+Definition run_idxgen_with (fx : fixes) (input : val) : val :=
+  let codec := vN (vnth 4 input) in
+  let qs := map vB (vL (vnth 5 input)) in
+  match run_load fx input with
+  | Err e => VL [VT "err"; v_err e]
+  | Ok recs => v_index_obs codec recs qs
+  end.
+(* the tree with notes/fixes/C03-loadindex-plain-reader.patch *)
+Definition run_idxgen (input : val) : val := run_idxgen_with repaired input.
+
+(* the clauses of C03 on what the implementation returned, for a constructed archive *)
+Definition class_of_kind (k : N) : string :=
+  if k =? 2 then "plain-reader" else if k =? 4 then "reader-at" else "seekable".
+Definition fail3 (clause cls : string) : val := VL [VT "FAIL"; VT clause; VT cls].
+
+Definition prop_idxgen (input obs : val) : val :=
+  let kind := vN (vnth 0 input) in
+  let o := v_gopts (vnth 1 input) in
+  let codec := vN (vnth 4 input) in
+  let qs := map vB (vL (vnth 5 input)) in
+  let expect := vnth 6 input in
+  let cls := class_of_kind kind in
+  if negb (is_tag (vnth 0 expect) "valid") then VT "ok" else
+  let hlen := vN (vnth 1 expect) in
+  let blocks := vblocks (vnth 2 expect) in
+  let payload := vB (vnth 3 expect) in
+  let padded := vbool (vnth 4 expect) in         (* zero bytes follow the sections inside the payload *)
+  let too_large := existsb (fun b => section_indexed o (fst b) && (g_max_cid o <? blen (fst b))) blocks in
+  if too_large then
+    (if is_tag (vnth 0 obs) "err" && is_tag (vnth 1 obs) "cid2big" then VT "ok"
+     else fail3 "oversized-cid-not-refused" cls)
+  else if padded && negb (g_zeof o) then
+    (if is_tag (vnth 0 obs) "err" then VT "ok" else fail3 "null-padding-accepted-without-option" cls)
+  else if negb (is_tag (vnth 0 obs) "ok") then fail3 "valid-archive-not-indexed" cls
+  else
+    let by_code := codec =? codec_mh_sorted in
+    let gas := vL (vnth 2 obs) in
+    let want := map (fun q => spec_lookup o by_code (fst (v_key q)) (snd (v_key q)) hlen blocks) qs in
+    let got := map (fun g => map vN (vL g)) gas in
+    if negb (val_eqb (VL (map (fun l => v_offs (sort_N l)) got)) (VL (map (fun l => v_offs (sort_N l)) want)))
+    then fail3 "lookup-differs-from-reference-scan" cls
+    else if negb (forallb (fun qg =>
+                    forallb (fun off =>
+                      match section_at payload off with
+                      | Some (c, _) => key_match by_code (fst (v_key (fst qg))) (snd (v_key (fst qg))) c
+                      | None => false
+                      end) (snd qg)) (combine qs got))
+    then fail3 "offset-does-not-decode-to-the-key" cls
+    else VT "ok".
